@@ -91,6 +91,10 @@ Section Client.
                      | None => REQUEST_DOWNLOAD
                      | Some _ => Z.lor REQUEST_DOWNLOAD SIZE_SPECIFIED
                      end in
+      (* an SDO error of the initiate exchange (time-out, abort, unexpected response) is latched as in
+         write(): _done = True, _error = exc, so that close() of the discarded object sends nothing *)
+      let failed (e : option Z) := {| ws_size := size; ws_pos := 0; ws_toggle := 0; ws_exp := None;
+                                      ws_done := true; ws_error := Some e |} in
       match szb with
       | Ok sz =>
           match pack_sdo command idx sub with
@@ -99,9 +103,9 @@ Section Client.
               match r with
               | Ok resp =>
                   if nth 0 resp 0 =? RESPONSE_DOWNLOAD then (w1, st, Ok tt)
-                  else (w1, st, Err E_SDOCOMM)
-              | Err k => (w1, st, Err k)
-              | Abort c => (w1, st, Abort c)
+                  else (w1, failed None, Err E_SDOCOMM)
+              | Err k => if k =? E_SDOCOMM then (w1, failed None, Err k) else (w1, st, Err k)
+              | Abort c => (w1, failed (Some c), Abort c)
               end
           | Err k => (w, st, Err k)
           | Abort c => (w, st, Abort c)
